@@ -13,9 +13,18 @@ FUNCTIONS = ['uxarray.grid.intersections.fast_constant_lat_intersections',
     'uxarray.grid.grid.Grid.isel@n_node',
     'uxarray.grid.grid.Grid.isel@n_edge',
     'uxarray.grid.grid.Grid.isel@n_face',
-    'uxarray.grid.grid.Grid.isel@two_dims']
+    'uxarray.grid.grid.Grid.isel@two_dims',
+    "uxarray.subset.grid_accessor.GridSubsetAccessor._index_grid@nodes",
+    "uxarray.subset.grid_accessor.GridSubsetAccessor._index_grid@edge centers",
+    "uxarray.subset.grid_accessor.GridSubsetAccessor._index_grid@face centers",
+    "uxarray.subset.grid_accessor.GridSubsetAccessor.nearest_neighbor@nodes",
+    "uxarray.subset.grid_accessor.GridSubsetAccessor.nearest_neighbor@edge centers",
+    "uxarray.subset.grid_accessor.GridSubsetAccessor.nearest_neighbor@face centers",
+    "uxarray.subset.grid_accessor.GridSubsetAccessor.bounding_circle@nodes",
+    "uxarray.subset.grid_accessor.GridSubsetAccessor.bounding_circle@edge centers",
+    "uxarray.subset.grid_accessor.GridSubsetAccessor.bounding_circle@face centers"]
 STANDINS = ["subsets"]
 ASSUMPTIONS = []
 EXPLANATION = ""
-LEVEL_TEXT = 'fast_constant_lat_intersections proved (loop invariant): selected edges are exactly those whose end nodes lie strictly on opposite sides of the parallel, increasing, no duplicates; Grid.isel proved to dispatch each grid dimension to its own slicing routine, UxDataArray.isel proved to slice the grid of the array along the requested dimension and to re-attach the data through _slice_from_grid; UxDataArray._slice_from_grid proved (dataflow): the data are indexed along THEIR OWN grid dimension with exactly the indices the grid slice recorded, and the result carries the sliced grid; slicing/renumbering of the grid itself, boxes, circles bounded (independent geometric oracle)'
+LEVEL_TEXT = 'fast_constant_lat_intersections proved (loop invariant): selected edges are exactly those whose end nodes lie strictly on opposite sides of the parallel, increasing, no duplicates; the subset accessor proved to query the tree of the REQUESTED element kind (ball tree for lon/lat, k-d tree for xyz query points) and to slice the grid along the dimension of that kind; Grid.isel proved to dispatch each grid dimension to its own slicing routine, UxDataArray.isel proved to slice the grid of the array along the requested dimension and to re-attach the data through _slice_from_grid; UxDataArray._slice_from_grid proved (dataflow): the data are indexed along THEIR OWN grid dimension with exactly the indices the grid slice recorded, and the result carries the sliced grid; slicing/renumbering of the grid itself, boxes, circles bounded (independent geometric oracle)'
 LEVEL_NOTE = 'prange treated as range (A-NUMBA): each iteration writes only its own mask cell; argwhere/unique models'
